@@ -3,11 +3,12 @@ PROP = "C13"
 COQ_IMPORTS = "From SV Require Import Model.Topology Model.Placement."
 READY = True
 XCHECK = 40
-RULE = ("cases = (N,idx,B,P,rf): every configuration accepted by validate() with N<=8, B<=16, P<=32, rf<=N (about 76k), "
-        "all combinations around the validation edges for N<=8 (N=0, idx>=N, rf in {0,N+1}, B=0, P<B, P<N), "
-        "boundary cluster sizes N in {9,12,13,14,16,17,64,100,254..258,300,320,321,511..513,1000,4096,65535} with idx in {0,1,N/2,N-2,N-1,rnd}, "
-        "rf in {1,2,3,5,11,12,13,255,min(N,255),rnd}, B in {1,2,3,N-1,N,N+1,2N-1,2N,2N+1,1000,4096,65535,rnd}, P in {max,max+1,2max+3,65535,..} "
-        "(36 per N quick, 260 thorough) and 500/4000 random configurations with B,P up to 65535. "
+RULE = ("cases = (N,idx,B,P,rf): every configuration accepted by validate() with N<=8, idx<N, B<=16, rf<=N and P every value in max(N,B)..32 (thorough, about 76k) "
+        "or P in {max(N,B), +1, 2max+1, 31, 32} (quick, about 16k); all combinations around the validation edges for N<=8 (N=0, idx>=N, rf in {0,N+1}, B=0, P<B, P<N); "
+        "boundary cluster sizes N in {9,12,13,14,16,17,64,100,254..258,300,320,321,511..513,1000 (+4096, 65535 thorough)} with idx in {0,1,N/2,N-2,N-1,rnd}, "
+        "rf in {1,2,3,5,11,12,13,255,min(N,255),rnd}, B in {1,2,3,N-1,N,N+1,2N-1,2N,2N+1,1000,4096,65535,rnd}, P in {max,max+1,2max+3,65535,max+rnd} "
+        "(36 candidates per N quick, 260 thorough; candidates with P>2000 are kept while a per-N partition budget lasts), the largest counts once each "
+        "(N=256 B=P=65535; N=300 P=65535 rf=12; thorough also N=65535 and N=4096), and 500/4000 random configurations with B,P up to 65535 (same budget rule). "
         "Observed per case: validate() verdict, assigned_buckets, assigned_partitions, TopologyManager.assigned_partitions and, for N<=320, the "
         "partitions whose replica list contains the node once all N nodes are known. "
         "A case is non-trivial when the configuration is accepted and the node stores a proper subset of the buckets. distinct = distinct case strings.")
